@@ -169,6 +169,49 @@ CullBehaviour(c) ==
                 [op |-> "qtable", h |-> 1, h2 |-> 2, dim |-> 3, props |-> <<PT, PC(1), PTag>>, rows |-> CullRows(c)] >>]
 
 (***************************************************************************)
+(* Arcs (dip varying linearly along a segment), by construct-then-query:    *)
+(* the point is built forward from a chosen arc length t along the surface  *)
+(* and a signed offset d along the local normal, as symbolic terms          *)
+(*    s(t) = s0 + (sin(d0 + k t) - sin d0) / k                              *)
+(*    z(t) = z0 - (cos(d0 + k t) - cos d0) / k        k = (d1 - d0) / L     *)
+(*    p    = (s, z) + d (-sin(d0 + k t), cos(d0 + k t))                     *)
+(* so the expected distances are known by construction.  Offsets stay well  *)
+(* below the radius of curvature 1 / k and away from the segment ends.      *)
+(***************************************************************************)
+ArcCases == { [pre |-> 0, d0 |-> 30, d1 |-> 60, len |-> 400, kind |-> "subducting plate"],
+              [pre |-> 0, d0 |-> 60, d1 |-> 20, len |-> 400, kind |-> "subducting plate"],
+              [pre |-> 200, d0 |-> 45, d1 |-> 80, len |-> 300, kind |-> "subducting plate"],
+              [pre |-> 200, d0 |-> 45, d1 |-> 110, len |-> 300, kind |-> "subducting plate"],
+              [pre |-> 0, d0 |-> 80, d1 |-> 50, len |-> 300, kind |-> "fault"],
+              [pre |-> 100, d0 |-> 45, d1 |-> 70, len |-> 300, kind |-> "fault"] }
+V(n) == [op |-> "var", name |-> n]
+ArcDoc(a) ==
+  World(Cartesian,
+        <<Line(a.kind, "line", <<<<200 * Km, -500 * Km>>, <<200 * Km, 1200 * Km>>>>, <<1500 * Km, 350 * Km>>, 0, 1500 * Km,
+               (IF a.pre > 0 THEN <<Segment(a.pre * Km, <<100 * Km>>, <<-50 * Km>>, <<a.d0>>)>> ELSE <<>>)
+               \o <<Segment(a.len * Km, <<100 * Km>>, <<-50 * Km>>, <<a.d0, a.d1>>)>>,
+               <<>>, <<CUniform(<<1>>, "replace") @@ ((IF a.kind = "fault" THEN "min distance fault center" ELSE "min distance slab top") :> -1000 * Km)>>, <<>>, <<>>)>>)
+(* row cells: $0 = t (km along the arc), $1 = d (km offset); let-bound: d0, k, s0, z0 (radians / metres) *)
+ArcAngle == Add(V("d0"), Mul(V("k"), Mul(V("$0"), Km)))
+ArcS == Add(Add(V("s0"), Div(Sub(Sin(ArcAngle), Sin(V("d0"))), V("k"))), Mul(Mul(V("$1"), Km), Mul(-1, Sin(ArcAngle))))
+ArcZ == Add(Sub(V("z0"), Div(Sub(Cos(ArcAngle), Cos(V("d0"))), V("k"))), Mul(Mul(V("$1"), Km), Cos(ArcAngle)))
+ArcBehaviour(a) ==
+  LET lets == << <<"d0", Rad(a.d0)>>, <<"k", Div(Sub(Rad(a.d1), Rad(a.d0)), a.len * Km)>>,
+                 <<"s0", Mul(a.pre * Km, Cos(Rad(a.d0)))>>, <<"z0", Mul(a.pre * Km, Sin(Rad(a.d0)))>> >>
+      ts == {a.len \div 10, a.len \div 3, a.len \div 2, (9 * a.len) \div 10}
+      ds == IF a.kind = "fault" THEN {-40, -10, 15, 45, -70, 80} ELSE {-40, -10, 15, 60, 90, -70, 130}
+      inside(d) == IF a.kind = "fault" THEN d > -50 /\ d < 50 ELSE d > -50 /\ d < 100
+      rows == SetToSeq(ts \X ds)
+  IN [id |-> <<"arc", a>>, labels |-> <<"slab-geometry", a.kind, "arc">>,
+      steps |-> << [op |-> "create", h |-> 1, wb |-> ArcDoc(a)],
+                   [op |-> "atable", h |-> 1, name |-> "line", let |-> lets,
+                    x |-> Add(200 * Km, ArcS), y |-> 350 * Km, depth |-> ArcZ, height |-> HM,
+                    from |-> Mul(V("$1"), Km), along |-> Mul(Add(a.pre, V("$0")), Km), rel |-> Dec(1, -6), abs |-> 1,
+                    props |-> <<PTag>>, tagname |-> a.kind, mindepth |-> 0, maxdepth |-> 1500 * Km,
+                    rows |-> [i \in 1..Len(rows) |-> <<rows[i][1], rows[i][2], IF inside(rows[i][2]) THEN 1 ELSE 0>>]] >>]
+EmitArcs == \A a \in ArcCases : PrintT(<<"B", ToJson(ArcBehaviour(a))>>)
+
+(***************************************************************************)
 (* Machine: segment tables are built one segment per step                   *)
 (***************************************************************************)
 VARIABLE cfg
